@@ -104,3 +104,57 @@ def sent_truth(prog: Program, interp: Interp, f: FuncInfo, init: Optional[Set[En
         1 for n in res.cfg.nodes for frag in node_exprs(n) if n.kind != 'cond'
         for x in walk_no_defs(frag) if isinstance(x, (ast.Assert, ast.BoolOp, ast.IfExp)))
     return flagged, conds
+
+
+def sized_truth_tests(prog, f):
+    """Truthiness tests (`if x:` / `x if x else …` / `x and …`) on a local or parameter whose static type is Optional[C] with C a repo
+    class defining __len__ or __bool__: for such a value "falsy" is not "None".  Returns [(line, text, why)]."""
+    import ast as _ast
+    from ..types import FuncScope, members, types_of
+    from ..util import classify_cond
+    ty = types_of(prog)
+    sc = FuncScope(f, ty)
+    out = []
+
+    def atoms(e):
+        if isinstance(e, _ast.BoolOp):
+            for v in e.values:
+                yield from atoms(v)
+        elif isinstance(e, _ast.UnaryOp) and isinstance(e.op, _ast.Not):
+            yield from atoms(e.operand)
+        else:
+            yield e
+    tests = []
+    for x in _ast.walk(f.node):
+        if isinstance(x, (_ast.If, _ast.While, _ast.IfExp, _ast.Assert)):
+            tests += list(atoms(x.test))
+        elif isinstance(x, _ast.BoolOp):
+            tests += [v for v in x.values[:-1] for v in atoms(v)]
+    seen = set()
+    for t in tests:
+        if id(t) in seen or not isinstance(t, _ast.Name):
+            continue
+        seen.add(id(t))
+        k = classify_cond(prog, f, t)
+        if k.kind != 'truthy':
+            continue
+        tt = ty.expr(t, sc)
+        ms = members(tt)
+        if not any(m == ('none',) for m in ms):
+            continue
+        for m in ms:
+            if m[0] == 'inst':
+                ci = prog.classes.get(m[1])
+                if ci is None or ci.module.name != 'pjrpc.common.v20':      # message objects only (sentinels are meant to be falsy)
+                    continue
+                sized = [n for n in ('__len__', '__bool__') if any(
+                    n in c.methods for c in [ci] + prog.subclasses(ci, strict=True))]
+                if sized:
+                    out.append((t.lineno, _norm_test(t), f'`{t.id}` is Optional[{ci.name}] and {ci.name} (or a subclass) defines {"/".join(sized)}'))
+                    break
+    return out
+
+
+def _norm_test(t):
+    from ..model import norm
+    return norm(t)
